@@ -681,13 +681,13 @@ func c18Run(c *Ctx) {
 func init() {
 	register(&CheckDef{
 		ID: "C10", Build: "instr", Run: c10Run, RunCase: elemRunCase("single-element"),
-		Rule:        "states = every referable element (definition, parameter, response) of every generated root (all digraphs on <= 2 nodes x 7 placements, references leaving the root spelled absolutely) x every entry point and way of supplying the root (ExpandSchema with typed pointer / typed value / generic root, ExpandSchemaWithBasePath with nil / harness / library cache, pre-filled cache, AbsoluteCircularRef, ExpandParameter[WithRoot], ExpandResponse[WithRoot]) plus two-call histories that reuse one cache with another root at the same location; oracles: bisimilarity of the result with the element in the context of that root, remaining refs resolvable from that root and on input cycles, acyclic => ref-free, root and options unchanged",
+		Rule:        "states = every referable element (definition, parameter, response) of every generated root (all digraphs on <= 2 nodes - thorough: 3 - x 10 placements x 5 keyword positions - thorough: 12 -, references leaving the root spelled absolutely) x every entry point and way of supplying the root (ExpandSchema with typed pointer / typed value / generic root, ExpandSchemaWithBasePath with nil / harness / library cache, pre-filled cache, AbsoluteCircularRef, ExpandParameter[WithRoot], ExpandResponse[WithRoot]) plus two-call histories that reuse one cache with another root at the same location; oracles: bisimilarity of the result with the element in the context of that root, remaining refs resolvable from that root and on input cycles, acyclic => ref-free, root and options unchanged",
 		Assumptions: []string{"*WithRoot entry points place the root at <cwd>/.root; references leaving the root are therefore generated in absolute form", "the element passed in is a fresh decoding (shares no storage with the root)"},
 		MinOutcomes: 1,
 	})
 	register(&CheckDef{
 		ID: "C18", Build: "instr", Run: c18Run, RunCase: elemRunCase("cache"),
-		Rule:        "states = the C10 roots x every cache-taking entry point x cache kinds (a ResolutionCache implemented by the caller, the library's own) x every subset of the external documents pre-loaded x two-call histories reusing the cache across elements of the same root, plus ExpandSpec; oracles: the result is bisimilar to the element (hence to the no-cache result), no URL requested twice within a call, no pre-loaded document requested, pre-loaded documents JSON-identical afterwards",
+		Rule:        "states = the C10 roots x every cache-taking entry point x cache kinds (a ResolutionCache implemented by the caller, the library's own) x every subset of the external documents pre-loaded x two-call histories (also after a passing failure of a document, answered with an error or with half of the document, and with in-memory roots that declare ids) reusing the cache across elements of the same root, plus ExpandSpec; oracles: the result is bisimilar to the element (hence to the no-cache result), no URL requested twice within a call, no pre-loaded document requested, pre-loaded documents JSON-identical afterwards",
 		Assumptions: []string{"transparency is judged against the reference model (the no-cache outcome is itself checked by C10/C02)"},
 		MinOutcomes: 1,
 	})
